@@ -474,23 +474,23 @@ pub open spec fn assoc_value<Sz, N, Sy, C, B>(cells: Map<Sz, Cell<Sz, N, Sy, C, 
 // values themselves and the pairs of sub-values that still have to be equal.
 // ---------------------------------------------------------------------------------
 /// a range bound: both absent (unit) or both numbers that are numerically equal
-pub open spec fn bound_eq<D: GarnishData>(st: St<D::Size, D::Number, D::Symbol, D::Char, D::Byte>, x: D::Size, y: D::Size) -> bool {
-    (st.cells[x].ty == GarnishDataType::Unit && st.cells[y].ty == GarnishDataType::Unit)
-    || (st.cells[x].ty == GarnishDataType::Number && st.cells[y].ty == GarnishDataType::Number && D::num_eq(st.cells[x].num, st.cells[y].num))
+pub open spec fn bound_eq<D: GarnishData>(cells: Map<D::Size, Cell<D::Size, D::Number, D::Symbol, D::Char, D::Byte>>, x: D::Size, y: D::Size) -> bool {
+    (cells[x].ty == GarnishDataType::Unit && cells[y].ty == GarnishDataType::Unit)
+    || (cells[x].ty == GarnishDataType::Number && cells[y].ty == GarnishDataType::Number && D::num_eq(cells[x].num, cells[y].num))
 }
 
 /// the flat item sequence of a list or a concatenation
-pub open spec fn flat_items<D: GarnishData>(st: St<D::Size, D::Number, D::Symbol, D::Char, D::Byte>, a: D::Size) -> Seq<D::Size> {
-    if st.cells[a].ty == GarnishDataType::List { st.cells[a].items } else { D::concat_flat(st, a) }
+pub open spec fn flat_items<D: GarnishData>(cells: Map<D::Size, Cell<D::Size, D::Number, D::Symbol, D::Char, D::Byte>>, a: D::Size) -> Seq<D::Size> {
+    if cells[a].ty == GarnishDataType::List { cells[a].items } else { D::concat_flat(cells, a) }
 }
 
 pub open spec fn is_seq_ty(t: GarnishDataType) -> bool { t == GarnishDataType::List || t == GarnishDataType::Concatenation }
 
-pub open spec fn deq<D: GarnishData>(st: St<D::Size, D::Number, D::Symbol, D::Char, D::Byte>, l: D::Size, r: D::Size) -> (bool, Seq<D::Size>) {
-    let cl = st.cells[l]; let cr = st.cells[r]; let none = Seq::<D::Size>::empty();
+pub open spec fn deq<D: GarnishData>(cells: Map<D::Size, Cell<D::Size, D::Number, D::Symbol, D::Char, D::Byte>>, l: D::Size, r: D::Size) -> (bool, Seq<D::Size>) {
+    let cl = cells[l]; let cr = cells[r]; let none = Seq::<D::Size>::empty();
     if is_seq_ty(cl.ty) && is_seq_ty(cr.ty) {
         // lists and concatenations: the flat sequences of their items, pairwise
-        (flat_items::<D>(st, l).len() == flat_items::<D>(st, r).len(), zip2(flat_items::<D>(st, l), flat_items::<D>(st, r)))
+        (flat_items::<D>(cells, l).len() == flat_items::<D>(cells, r).len(), zip2(flat_items::<D>(cells, l), flat_items::<D>(cells, r)))
     } else { match (cl.ty, cr.ty) {
         (GarnishDataType::Unit, GarnishDataType::Unit) | (GarnishDataType::True, GarnishDataType::True) | (GarnishDataType::False, GarnishDataType::False) => (true, none),
         (GarnishDataType::Type, GarnishDataType::Type) => (cl.typ == cr.typ, none),
@@ -508,11 +508,27 @@ pub open spec fn deq<D: GarnishData>(st: St<D::Size, D::Number, D::Symbol, D::Ch
         (GarnishDataType::CharList, GarnishDataType::CharList) => (seq_eq(cl.chars, cr.chars), none),
         (GarnishDataType::ByteList, GarnishDataType::ByteList) => (seq_eq(cl.bytes, cr.bytes), none),
         (GarnishDataType::SymbolList, GarnishDataType::SymbolList) => (seq_eq(cl.parts, cr.parts), none),
-        (GarnishDataType::Range, GarnishDataType::Range) => (bound_eq::<D>(st, cl.a, cr.a) && bound_eq::<D>(st, cl.b, cr.b), none),
+        (GarnishDataType::Range, GarnishDataType::Range) => (bound_eq::<D>(cells, cl.a, cr.a) && bound_eq::<D>(cells, cl.b, cr.b), none),
         // pairs: component-wise
         (GarnishDataType::Pair, GarnishDataType::Pair) => (true, seq![cl.a, cr.a, cl.b, cr.b]),
         _ => (false, none),
     } }
+}
+
+/// C11: structural equality as the verdict of working off the queue of pending pairs (top = last two) with `deq`:
+/// false as soon as one pair differs, true when nothing is pending. `None`: not determined within `fuel` steps,
+/// or a slice is met (slices are outside the decided scope).
+pub open spec fn weq<D: GarnishData>(cells: Map<D::Size, Cell<D::Size, D::Number, D::Symbol, D::Char, D::Byte>>, w: Seq<D::Size>, fuel: nat) -> Option<bool>
+    decreases fuel
+{
+    if w.len() < 2 { Some(true) }
+    else if fuel == 0 { None }
+    else {
+        let r = w[w.len() - 1]; let l = w[w.len() - 2];
+        if cells[l].ty == GarnishDataType::Slice || cells[r].ty == GarnishDataType::Slice { None }
+        else if !deq::<D>(cells, l, r).0 { Some(false) }
+        else { weq::<D>(cells, w.take(w.len() - 2) + deq::<D>(cells, l, r).1, (fuel - 1) as nat) }
+    }
 }
 
 pub trait GarnishData: Sized {
@@ -644,7 +660,7 @@ pub trait GarnishData: Sized {
             && rem(it) == self.st().cells[list_addr].items.subrange(Self::ext_sel(self.st().cells[list_addr].items.len(), extents).0, Self::ext_sel(self.st().cells[list_addr].items.len(), extents).1);
     fn get_concatenation_iter(&self, addr: Self::Size, extents: Extents<Self::Number>) -> (r: Result<Self::ConcatenationItemIterator, Self::Error>)
         ensures r matches Ok(it) ==> self.st().cells.contains_key(addr) && self.st().cells[addr].ty == GarnishDataType::Concatenation
-            && rem(it) == Self::concat_flat(self.st(), addr).subrange(Self::ext_sel(Self::concat_flat(self.st(), addr).len(), extents).0, Self::ext_sel(Self::concat_flat(self.st(), addr).len(), extents).1);
+            && rem(it) == Self::concat_flat(self.st().cells, addr).subrange(Self::ext_sel(Self::concat_flat(self.st().cells, addr).len(), extents).0, Self::ext_sel(Self::concat_flat(self.st().cells, addr).len(), extents).1);
 
     // ---- data table: adders. Frame: existing cells keep their content; nothing else changes ----
     fn add_unit(&mut self) -> (r: Result<Self::Size, Self::Error>)
@@ -739,7 +755,7 @@ pub trait GarnishData: Sized {
 
     fn push_register(&mut self, addr: Self::Size) -> (r: Result<(), Self::Error>)
         ensures
-            r is Ok ==> only_cells_regs(old(self).st(), final(self).st(), old(self).st().regs.push(addr));
+            r is Ok ==> only_cells_regs(old(self).st(), final(self).st(), old(self).st().regs.push(addr)) && final(self).st().cells == old(self).st().cells;
 
     fn get_register(&self, addr: Self::Size) -> (r: Option<Self::Size>)
         ensures
@@ -853,7 +869,7 @@ pub trait GarnishData: Sized {
     /// the window [lo, hi) of a sequence of length `len` that an Extents value selects (the data object's own clamping)
     spec fn ext_sel(len: nat, e: Extents<Self::Number>) -> (int, int);
     /// the flat item sequence a concatenation denotes (lists contribute their items, other values themselves)
-    spec fn concat_flat(st: St<Self::Size, Self::Number, Self::Symbol, Self::Char, Self::Byte>, addr: Self::Size) -> Seq<Self::Size>;
+    spec fn concat_flat(cells: Map<Self::Size, Cell<Self::Size, Self::Number, Self::Symbol, Self::Char, Self::Byte>>, addr: Self::Size) -> Seq<Self::Size>;
     spec fn num_one() -> Self::Number;
     spec fn num_max() -> Self::Number;
     spec fn chr_cmp(a: Self::Char, b: Self::Char) -> Option<Ordering>;
